@@ -31,6 +31,13 @@ struct XMesh : ovm::GeometryKernel<Vec3d, K> {
     const std::vector<std::vector<HalfFaceHandle>> &cache_e() const { return this->incident_hfs_per_he_; }
     const std::vector<CellHandle> &cache_f() const { return this->incident_cell_per_hf_; }
     template <class ET> size_t n_tracked() const { return this->template storage_tracker<ET>().size(); }
+    // sizes of ALL tracked property storages (not only persistent ones) vs the entity counts; "" if consistent
+    std::string prop_size_mismatch() const {
+        std::string r;
+        ovm::for_each_entity([&](auto tag) { using ET = decltype(tag);
+            for (auto *p : this->template storage_tracker<ET>()) if (p->size() != this->template n<ET>()) r += "property '" + p->name() + "' has " + std::to_string(p->size()) + " elements for " + std::to_string(this->template n<ET>()) + " entities; "; });
+        return r;
+    }
     // expose the tet-kernel's protected split operations
     template <class H> void x_split_edge(H h, VertexHandle v) { this->split_edge(h, v); }
     template <class H> void x_split_face(H f, VertexHandle v) { this->split_face(f, v); }
